@@ -5,6 +5,7 @@ package rfc8888
 import (
 	"encoding/json"
 	"sync"
+	"sync/atomic"
 	"testing"
 	"time"
 
@@ -28,6 +29,8 @@ type vfCcfbScript struct {
 		Ecn uint8  `json:"ecn"`
 		Now int64  `json:"now"`
 		Max int    `json:"max"`
+		// WFail (icpt level, build): the RTCP writer refuses this report (after it has seen it)
+		WFail bool `json:"wfail"`
 	} `json:"steps"`
 }
 
@@ -161,8 +164,12 @@ func vfRunSender(t *testing.T, sc *vfCcfbScript, out *vfWriter) { //nolint:cyclo
 		t.Fatalf("VERIF-INFRA unexpected interceptor type %T", ici)
 	}
 	written := make(chan []rtcp.Packet, 16)
+	var failNow atomic.Bool
 	ic.BindRTCPWriter(interceptor.RTCPWriterFunc(func(pkts []rtcp.Packet, _ interceptor.Attributes) (int, error) {
 		written <- pkts
+		if failNow.Load() {
+			return 0, errVfShort
+		}
 
 		return len(pkts), nil
 	}))
@@ -215,6 +222,7 @@ func vfRunSender(t *testing.T, sc *vfCcfbScript, out *vfWriter) { //nolint:cyclo
 				t.Fatalf("VERIF-INFRA script ticks before the first packet (the ticker does not exist yet)")
 			}
 			clock.Set(vfAt(sc.Base, st.Now))
+			failNow.Store(st.WFail)
 			select {
 			case tick.c <- vfAt(sc.Base, st.Now):
 			case <-time.After(20 * time.Second):
@@ -222,6 +230,7 @@ func vfRunSender(t *testing.T, sc *vfCcfbScript, out *vfWriter) { //nolint:cyclo
 			}
 			select {
 			case pkts := <-written:
+				failNow.Store(false)
 				if len(pkts) != 1 {
 					out.Emit(vfReportEvent(st.Now, int(ic.maxReportSize), nil))
 				} else {
